@@ -100,7 +100,9 @@ func vChildOf(s uint64) uint64    { return 96 + (5*s+2)%32 }
 func (w *vW) hooks() {
 	ds, mx := uint64(w.sup.DataStart()), uint64(w.sup.MaxBnum())
 	verifrt.OnReturn("github.com/mit-pdos/go-nfsd/inode.Decode", func(ip *inode.Inode) {
-		if w.quiet {
+		if w.quiet || verifrt.Appended() {
+			// Inv and the bounds are assumptions about the pre-state only: once the request has
+			// committed something, what it reads back is its own product and nothing is assumed of it
 			return
 		}
 		inode.VerifAssumeInvLocal(ip, ds, mx, w.dirSlots, w.lnkMax)
@@ -143,14 +145,14 @@ func (w *vW) hooks() {
 	// I6 is instantiated lazily, when an inode is first used as a directory
 	for _, f := range []string{"LookupName", "AddName", "RemName", "IsDirEmpty", "Apply", "ApplyEnts", "ScanName", "InitDir"} {
 		verifrt.OnCall("github.com/mit-pdos/go-nfsd/dir."+f, func(dip *inode.Inode) {
-			if dip != nil {
+			if dip != nil && !verifrt.Appended() {
 				for _, seen := range w.dirsDone {
 					if seen == dip {
 						return
 					}
 				}
 				w.dirsDone = append(w.dirsDone, dip)
-				w.assumeDir(dip, dip.Kind == nfstypes.NF3DIR && dip.Size != 0)
+				w.assumeDir(dip, verifrt.Forced(dip.Kind == nfstypes.NF3DIR && dip.Size != 0))
 			}
 		})
 	}
@@ -202,6 +204,9 @@ func (w *vW) hooks() {
 	})
 	// I2 for the entries of indirect blocks
 	verifrt.OnReturn("(*github.com/mit-pdos/go-journal/buf.Buf).BnumGet", func(p uint64) {
+		if verifrt.Appended() {
+			return
+		}
 		verifrt.Assume(p == 0 || (p >= ds && p < mx))
 		if w.symaddr {
 			w.assumeMarked(p)
